@@ -695,7 +695,7 @@ class C12(Suite):
 
     def pipe_cases(self, tier, rng):
         quick = tier == "quick"
-        nlists = 16 if quick else 170
+        nlists = 24 if quick else 130
         # the context limit, exactly at the boundary (model and code must agree on where harvest fails)
         two = [{"t": "A[0-1]"}, {"t": "B[2]=(INT)7"}, {"t": "B[0-3]"}]
         for via, d, m, idx in [("s", 0, 0, CTX_LIMIT - 2), ("p", 1, 0, CTX_LIMIT - 2), ("p", 2, 0, CTX_LIMIT - 1), ("o", 0, 500, CTX_LIMIT - 1),
